@@ -1,5 +1,8 @@
 import SciVerif.Lemmas.C13
 import SciVerif.Lemmas.C13c
+import SciVerif.Lemmas.C13i
+import SciVerif.Lemmas.C13j
+import SciVerif.Lemmas.C13k
 
 /-!
 # C13 — DIP node paths follow indentation and values are the literals written
@@ -9,11 +12,6 @@ Only property theorems live here (helper lemmas: `Lemmas/C13*.lean`, `Lemmas/C14
 lexed by `determine`, the nodes go through the main loop, the result is the final node list.
 -/
 namespace SciVerif.C13
-
-/-- lexing every queued line, then the main loop and the final validation -/
-def parseLines (P : Params) (lines : List Str) : R (List ENode) := do
-  let nds ← lines.mapM determine
-  parseNodes P nds
 
 /-- `HierarchyList.register`, for *every* sequence of name-bearing lines: after the lines `ls`
     (text order) and one more line `(d, nm)` the parent stack is that line followed by exactly
@@ -161,34 +159,112 @@ theorem C13_new_entry_is_as_written (P : Params) (s s' : State) (nd : Node) (t :
       simp only [Except.ok.injEq] at h
       exact ⟨v, rfl, by rw [← h]; rfl⟩
 
-/-! ### literal round trip (statement only)
+/-! ### literal round trip: `lex (render d) = d`
 
-`lex (renderLine d) = d` for the definition grammar is **not proved**; it is exercised by the
-correspondence on every run (every literal form is rendered to text, lexed by the model and by
-the real parser, and compared with the abstract value).  The statement for bare scalar
-definitions is kept visible here. -/
+`LineD` (in `Lemmas/C13h.lean`) describes a line as written: a possibly dotted name, then either
+nothing (group), `= value` (modification), `type[dims] = value` (definition) or `type[dims]`
+(declaration); the type keyword carries its width / sign suffix (`TyD`), dimensions are written
+with digit strings (`DimD`), the value is a bare word (booleans, numbers in any notation, `none`,
+bare strings, inline arrays without blanks), a double- or single-quoted text, or a triple-quoted
+text (`Lit`), followed by an optional unit and an optional `# comment`; every gap has an
+arbitrary number of blanks.  The proof goes scanner by scanner (`Lemmas/C13d…h.lean`):
+each `part_*` consumes exactly the rendered field and leaves the rest. -/
 
-def kwText : Ty → Str
-  | .bool => "bool".toList | .int => "int".toList | .float => "float".toList | .str => "str".toList
+/-- For every well-formed line description `d`, every indentation `k`: lexing the rendered text
+    gives back exactly the node `d` denotes — indentation, name, type with width/sign, dimension
+    bounds, the value text between the quotes (or the bare word) with the escape marks undone,
+    and the unit.  `NoEsc`: the rendered line contains no backslash and no newline (escaped quotes
+    inside quoted strings are therefore not covered by this theorem). -/
+theorem C13_literal_roundtrip (k : Nat) (d : LineD) (hd : d.Ok) (hesc : NoEsc d.render) :
+    determine (List.replicate k ' ' ++ d.render) = .ok { d.node with indent := k } :=
+  determine_render k d hd hesc
 
-def kwInfo : Ty → TyInfo
-  | .int => { precision := some 32, unsigned := some false }
-  | .float => { precision := some 64 }
-  | _ => {}
+example : (LineD.modify "a.b".toList 0 1 { lit := .dq "x # y".toList, cm := some (1, " say \"hi\"".toList) }).Ok ∧
+    NoEsc (LineD.modify "a.b".toList 0 1 { lit := .dq "x # y".toList, cm := some (1, " say \"hi\"".toList) }).render :=
+  ⟨⟨⟨⟨'a', ".b".toList, by decide⟩, by decide⟩, by show ∀ c ∈ "x # y".toList, c ≠ '"'; decide, by intro n x h; cases h⟩,
+   by show ∀ c ∈ _, c ≠ '\\' ∧ c ≠ '\n'; decide⟩
 
-/-- `k` blanks, name, type keyword, ` = `, a bare value, optionally a blank and a unit -/
-def renderLine (k : Nat) (nm : Str) (ty : Ty) (v : Str) (u : Option Str) : Str :=
-  List.replicate k ' ' ++ nm ++ [' '] ++ kwText ty ++ " = ".toList ++ v ++
-    (match u with | some x => ' ' :: x | none => [])
+/-- value text without `$` is stored literally (the `$@NN` escape marks are the only rewriting) -/
+theorem C13_value_text_literal (s : Str) (h : ∀ c ∈ s, c ≠ '$') : decode s = s := decode_noDollar s h
 
-def C13_literal_roundtrip_statement : Prop :=
-  ∀ (k : Nat) (nm : Str) (ty : Ty) (v : Str) (u : Option Str),
-    nm ≠ [] → (∀ c ∈ nm, isNameCh c = true) →
-    v ≠ [] → (∀ c ∈ v, c ≠ ' ' ∧ c ≠ '#' ∧ c ≠ '\\' ∧ c ≠ '$' ∧ c ≠ '"' ∧ c ≠ '\'' ∧ isWs c = false) →
-    v.head? ≠ some '{' → v.head? ≠ some '(' →
-    (∀ x, u = some x → x ≠ [] ∧ (∀ c ∈ x, isUnitCh c = true ∧ c ≠ '\\' ∧ c ≠ '$') ∧
-      x.head? ≠ some '/' ∧ x.head? ≠ some '*' ∧ x.head? ≠ some '+' ∧ x.head? ≠ some '-') →
-    determine (renderLine k nm ty v u) =
-      .ok { kind := .typed ty, indent := k, name := some nm, info := kwInfo ty, raw := some (.text v), units := u }
+example : (LineD.define "a.b".toList 1 (.int true (some .w64)) (some [.range "2".toList [], .exact "3".toList]) 0 2
+    { lit := .bare "[[1,2,3],[4,5,6]]".toList, unit := some (1, "km/h".toList), cm := some (3, " c".toList) }).render
+    = "a.b  uint64[2:,3]=  [[1,2,3],[4,5,6]]  km/h   # c".toList := by decide
+
+/-- `DIP._get_queue`: a line without `"""` is queued unchanged; a line with `"""` swallows the
+    following lines up to and including the next one containing `"""` and queues ONE logical line
+    (head ++ block lines joined by newlines ++ closing line without its leading blanks);
+    a block that is never closed makes parsing fail. -/
+theorem C13_block_grouping (hd cl l : Str) (blk rest t : List Str) (hhd : hasTriple hd = true)
+    (hblk : ∀ x ∈ blk, hasTriple x = false) (hcl : hasTriple cl = true) (hl : hasTriple l = false) :
+    getQueue (l :: t) = (getQueue t).map (fun q => l :: q) ∧
+    getQueue (hd :: (blk ++ cl :: rest)) =
+      (getQueue rest).map (fun q => (hd ++ joinWith ['\n'] blk ++ lstrip cl) :: q) ∧
+    getQueue (hd :: blk) = .error .fail :=
+  ⟨getQueue_plain l t hl, getQueue_block hd cl blk rest hhd hblk hcl, getQueue_unterminated hd blk hhd hblk⟩
+
+/-- Block values end to end: the head line `<k blanks>name type[dims] = """`, arbitrary block lines
+    (free of `"`, backslash and `$`) and the closing line `<j blanks>""" [unit] [# comment]` are grouped
+    into one logical line, and that line is lexed to the definition node whose raw value is exactly
+    the block lines joined by newlines (the newline marks `$@02` are put in and taken out again). -/
+theorem C13_block_value_roundtrip (k j : Nat) (nm : Str) (a : Nat) (ty : TyD) (dims : Option (List DimD)) (b c : Nat)
+    (blk rest : List Str) (unit cm : Option (Nat × Str))
+    (hn : NameOk nm) (hd : DimsOk dims) (hu : ∀ n x, unit = some (n, x) → UnitOk x)
+    (htail : NoEsc (renderTail unit cm))
+    (hblk : ∀ l ∈ blk, ∀ x ∈ l, x ≠ '"' ∧ x ≠ '\\' ∧ x ≠ '$') :
+    let logical := List.replicate k ' ' ++ (definePrefix nm a ty dims b c ++
+      ('"' :: '"' :: '"' :: (blockText blk ++ '"' :: '"' :: '"' :: renderTail unit cm)))
+    getQueue ((List.replicate k ' ' ++ (definePrefix nm a ty dims b c ++ ['"', '"', '"'])) ::
+        (blk ++ (List.replicate j ' ' ++ '"' :: '"' :: '"' :: renderTail unit cm) :: rest)) =
+      (getQueue rest).map (fun q => logical :: q) ∧
+    determine logical = .ok (blockNode k nm ty dims (blockText blk) unit) :=
+  block_value_roundtrip k j nm a ty dims b c blk rest unit cm hn hd hu htail hblk
+
+/-! ### casts of scalar literals: the value is what the text denotes -/
+
+/-- `none`, `true`, `false`, and any other text for a string parameter -/
+theorem C13_cast_keywords (ty : Ty) (dims : Option (List Dim)) (s : Str) (hs : (s == "none".toList) = false) :
+    castText ty dims "none".toList = .ok .none ∧
+    castText .bool none "true".toList = .ok (.scalar (.bool true)) ∧
+    castText .bool none "false".toList = .ok (.scalar (.bool false)) ∧
+    castText .str none s = .ok (.scalar (.str s)) := by
+  refine ⟨by simp [castText], by rfl, by rfl, ?_⟩
+  simp only [castText, hs, Bool.false_eq_true, if_false, castScalar]
+
+/-- an integer literal `[+-]digits` is stored as the integer the digits denote -/
+theorem C13_cast_int_literal (sg : Option Bool) (d : Str) (hd : allDigits d = true) :
+    castText .int none (signText sg ++ d) =
+      .ok (.scalar (.num (((if signNeg sg then -(digitsToNat d : Int) else (digitsToNat d : Int)) : Int) : Rat))) := by
+  simp only [castText, ne_none_of_head _ (intLit_head sg d hd), Bool.false_eq_true, if_false, castScalar,
+    castInt_lit sg d hd]
+  rfl
+
+/-- a float literal in decimal or scientific notation (`23.3`, `.5`, `5.`, `-1.5E-3`, `1e+5`, …) is
+    stored as the rational number it denotes: `±(ip + fp / 10^|fp|) · 10^(±exp)` -/
+theorem C13_cast_float_literal (f : FloatD) (hf : f.Ok) :
+    castText .float none f.render = .ok (.scalar (.num f.value)) := by
+  simp only [castText, ne_none_of_head _ (floatD_head f hf), Bool.false_eq_true, if_false, castScalar,
+    castFloat_lit f hf]
+  rfl
+
+example : (FloatD.mk (some true) "1".toList (some "5".toList) (some (true, some true, "3".toList))).render = "-1.5E-3".toList := by decide
+
+/-! ### inline arrays (flat case proved; nested arrays, numpy shape rules and tables: correspondence only) -/
+
+/-- `json.loads` + the shape test of `cast_value` on a flat inline array `[t1,…,tn]` (elements are
+    words without blanks, commas, brackets): the elements come back in order with shape `[n]`, and
+    the value is the array of the element casts whenever the declared dimension admits `n`.
+    Partial: nested arrays are not covered by a theorem. -/
+theorem C13_inline_array_flat_partial (ty : Ty) (ds : List Dim) (toks : List Str) (atoms : List Atom)
+    (hne : toks ≠ []) (hok : ∀ t ∈ toks, TokOk t)
+    (hel : (toks.map Tok.bare).mapM (tokAtom ty) = .ok atoms) (hd : checkDims ds [toks.length] = true) :
+    parseJson (renderFlat toks) = .ok ([toks.length], toks.map Tok.bare) ∧
+    castText ty (some ds) (renderFlat toks) = .ok (.array [toks.length] atoms) := by
+  have hp := parseJson_flat toks hne hok
+  refine ⟨hp, ?_⟩
+  have hn : (renderFlat toks == "none".toList) = false := ne_none_of_head _ (by simp [renderFlat])
+  simp only [castText, hn, Bool.false_eq_true, if_false, hp, bind, Except.bind, hel, hd, if_true]
+
+example : renderFlat ["1".toList, "-2".toList, "30".toList] = "[1,-2,30]".toList := by decide
 
 end SciVerif.C13
